@@ -227,7 +227,7 @@ def plan_coverage(d, ctx):
     ctx.nontrivial(n > 0)
 
 
-@subcheck(SUBCHECKS, 'net_reordering_model', quick=700, thorough=12000)
+@subcheck(SUBCHECKS, 'net_reordering_model', quick=700, thorough=12000, fuzz=3000)
 def net_reordering_model(d, ctx):
     pa = _pa()
     K = d.int(1, 5)
